@@ -47,7 +47,12 @@ theorem SEqL.refl_of_WF {L : Ref → Ref → Prop} {A : Ref → Prop} {h h'' : H
 
 def dictPos : List (DKey × Ref) → DKey → Option Nat
   | [], _ => none
-  | (k', _) :: es, k => if k' = k then some 0 else (dictPos es k).map (· + 1)
+  | (k', _) :: es, k => if k'.norm = k.norm then some 0 else (dictPos es k).map (· + 1)
+
+theorem dictPos_norm (es : List (DKey × Ref)) (k : DKey) : dictPos es k.norm = dictPos es k := by
+  induction es with
+  | nil => rfl
+  | cons e es ih => obtain ⟨k', v'⟩ := e; simp [dictPos, ih]
 
 /-- The position in `n.refs` that key `k` addresses (depends only on the skeleton of `n`). -/
 def Node.slotPos : Node → PKey → Option Nat
@@ -61,7 +66,7 @@ theorem dictPos_get (es : List (DKey × Ref)) (k : DKey) :
   | nil => simp [dictGet, dictPos]
   | cons e es ih =>
     obtain ⟨k0, v0⟩ := e
-    by_cases hk : k0 = k
+    by_cases hk : k0.norm = k.norm
     · simp [dictGet, dictPos, hk]
     · simp only [dictGet, dictPos, hk, if_false, ih]
       cases dictPos es k <;> simp
@@ -87,7 +92,7 @@ theorem dictPos_lt {es : List (DKey × Ref)} {k : DKey} {j : Nat} (h : dictPos e
   | nil => simp [dictPos] at h
   | cons e es ih =>
     obtain ⟨k0, v0⟩ := e
-    by_cases hk : k0 = k
+    by_cases hk : k0.norm = k.norm
     · simp [dictPos, hk] at h; subst h; simp
     · simp only [dictPos, hk, if_false, Option.map_eq_some_iff] at h
       obtain ⟨j', hj', rfl⟩ := h
@@ -99,8 +104,8 @@ theorem dictSet_at_pos {es : List (DKey × Ref)} {k : DKey} {j : Nat} (h : dictP
   | nil => simp [dictPos] at h
   | cons e es ih =>
     obtain ⟨k0, v0⟩ := e
-    by_cases hk : k0 = k
-    · simp [dictPos, hk] at h; subst h; subst hk; simp [dictSet]
+    by_cases hk : k0.norm = k.norm
+    · simp [dictPos, hk] at h; subst h; simp [dictSet, hk]
     · simp only [dictPos, hk, if_false, Option.map_eq_some_iff] at h
       obtain ⟨j', hj', rfl⟩ := h
       obtain ⟨h1, h2⟩ := ih hj'
@@ -178,6 +183,7 @@ theorem Node.slotPut_at_pos {n n' : Node} {k : PKey} {j : Nat} {c : Ref} (hp : n
   | dict es =>
     simp only [Node.slotPos] at hp
     simp [Node.slotPut] at hput; subst hput
+    rw [← PKey.stored_norm, dictPos_norm] at hp
     obtain ⟨h1, h2⟩ := dictSet_at_pos hp c
     refine ⟨?_, h1⟩
     simp only [Node.skel, Node.dict.injEq]
